@@ -232,6 +232,10 @@ OccGet(cp, bwt, k, T, r, a) == OccGetB(cp, bwt, k, T, r, a)[2]
 
 (* An index as the FM/FMD code sees it: ix = [bwt, less, k, T, cps].  k = 0 means "Occ by       *)
 (* definition"; otherwise occ goes through the checkpoint table cps and Occ::get.                *)
+MkIndex(t, sa, k, T, syms) ==
+    LET b == Eager(BwtDef(t, sa)) IN
+    [bwt |-> b, less |-> Eager([c \in 0..(SetMax(syms) + 1) |-> LessDef(t, c)]), k |-> k, T |-> T,
+     cps |-> IF k = 0 THEN << >> ELSE Eager([c \in syms |-> Eager(CheckpointsDef(b, k, syms)[c])])]
 IxOcc(ix, r, a) == IF ix.k = 0 THEN OccDef(ix.bwt, r, a) ELSE OccGet(ix.cps[a], ix.bwt, ix.k, ix.T, r, a)
 
 \* ----------------------------------------- Kasai LCP loop (suffix_array.rs: lcp)
@@ -263,13 +267,13 @@ SampleOf(sa, s) == [j \in 1..((Len(sa) - 1) \div s + 1) |-> sa[(j - 1) * s + 1]]
 ExtraRows(sa, bwt, s, sent) == {i \in 0..(Len(sa) - 1) : i % s # 0 /\ bwt[i + 1] = sent}
 (* get(index): st = [pos, off, done, val]; one LF step per action *)
 SGetInit(index) == [pos |-> index, off |-> 0, done |-> FALSE, val |-> None]
-SGetStep(st, sa, bwt, t, s, sent) ==
+SGetStep(st, sa, ix, s, sent) ==
     IF st.pos % s = 0 THEN [st EXCEPT !.done = TRUE, !.val = SampleOf(sa, s)[st.pos \div s + 1] + st.off]
-    ELSE LET c == bwt[st.pos + 1] IN
+    ELSE LET c == ix.bwt[st.pos + 1] IN
          IF c = sent
          THEN [st EXCEPT !.done = TRUE,
-                         !.val = IF st.pos \in ExtraRows(sa, bwt, s, sent) THEN sa[st.pos + 1] + st.off ELSE None]
-         ELSE [st EXCEPT !.pos = LessDef(t, c) + OccDef(bwt, st.pos - 1, c), !.off = st.off + 1]
+                         !.val = IF st.pos \in ExtraRows(sa, ix.bwt, s, sent) THEN sa[st.pos + 1] + st.off ELSE None]
+         ELSE [st EXCEPT !.pos = ix.less[c] + IxOcc(ix, st.pos - 1, c), !.off = st.off + 1]
 
 \* ----------------------------- backward search (fmindex.rs: backward_search)
 (* st = [l, r, pl, pr, m, j, brk]: j = pattern symbols still to read, brk = loop left early *)
